@@ -300,6 +300,20 @@ def r6(R, repo):
     ok = len(calls) == 1 and len(st) == 1 and len(gens) == 1 and not gens[0].generators[0].ifs and \
         astu.src(gens[0].generators[0].iter) == astu.params(init.node)[1]
     R.check(ok, key_of(init, 'every sub-filter converted'), init, '%s.__init__ must convert every given filter with to_predicate' % cls)
+  # sibling cross-check: Any and All are the same code up to the combinator (any / all) and their own class name
+  for meth in ('__init__', '__call__'):
+    fa_, fb_ = mod.func('Any.' + meth), mod.func('All.' + meth)
+    norm = lambda fn_, own, red: ' '.join(astu.src(ast.Module(body=astu.strip_docstring(fn_.node.body), type_ignores=[])).replace(own, '<SELF>').replace(red + '(', '<RED>(').split())
+    a_, b_ = norm(fa_, 'Any', 'any'), norm(fb_, 'All', 'all')
+    key = key_of(mod.rel, 'Any.%s and All.%s agree up to the combinator' % (meth, meth))
+    if a_ == b_:
+      R.ok(key, fb_)
+    elif 'Any' in b_ or 'any(' in b_:
+      R.fail(key, fb_, 'All.%s refers to the sibling combinator (`%s`): nested filters are combined with the semantics of Any inside an All' % (meth, 'Any' if 'Any' in b_ else 'any('))
+    elif 'All' in a_ or 'all(' in a_:
+      R.fail(key, fa_, 'Any.%s refers to the sibling combinator (`%s`)' % (meth, 'All' if 'All' in a_ else 'all('))
+    else:
+      R.unsure(key, fb_, 'Any.%s and All.%s differ beyond the combinator' % (meth, meth))
   f, e = _ret_expr(mod, 'Not.__call__')
   ps = astu.params(f.node)
   ok = isinstance(e, ast.UnaryOp) and isinstance(e.op, ast.Not) and isinstance(e.operand, ast.Call) and \
